@@ -5,6 +5,7 @@ from . import _process_common as pc
 ASSUMPTIONS = [
     "leg A: the length/index bookkeeping of the permeance series (initial entry, look-ahead, pop) is part of MC_ProcessQ; the Arrhenius re-basing identity of the fitted function is model-checked in IEEE arithmetic (MC_PVFunction)",
     "leg A (curve model): MC_NICurveQ runs the NICurve machine (Start/Step/Raise/Finish with the look-ahead point and its pop) on exact rationals with the fitted functions and fluxes free",
+    "TLAPS (tla/proofs/NICurveProofs.tla, checked by tlapm on every run): for EVERY N, arithmetic, fitted functions and fluxes a returned curve of NICurve.tla has exactly N + 1 compositions, permeance pairs and flux pairs and starts at the stated composition (TLC enumerates N in 0..3)",
     "leg B: the fit returned by a model is evaluated through its public __call__ at the reported states; the public find_best_fit and Membrane.calculate_activation_energy are re-run by the harness as oracles (the optimiser itself is uninterpreted)",
     "tolerance 1e-9",
 ]
@@ -22,8 +23,10 @@ MANIFEST = {
             "outcome; four named wrong designs refuted) and the re-basing identity of the PVFunction specification; recorded non-ideal process runs and non-ideal diffusion curves of the real code are validated step by step "
             "against the fit the models return (public __call__) and against the public best-fit search / activation energy re-run as oracle.",
     "note": "The optimiser is uninterpreted (deterministic function of data and orders). Scenarios sampled; each costs two Powell fits.",
-    "technique": "TLA+ spec (Process, NICurve, PVFunction) + TLC + TLC trace validation of recorded non-ideal runs with public-API oracles",
+    "technique": "TLA+ spec (Process, NICurve, PVFunction) + TLC + TLC trace validation of recorded non-ideal runs with public-API oracles + TLAPS proof about NICurve.tla (tlapm)",
 }
+
+TLAPS = [("NICurveProofs.tla", ["NICurve.tla"])]
 
 
 def leg_a(ctx):
